@@ -67,8 +67,10 @@ package deb
 //@     return s
 //@ }
 //
-//@ inline func conffiles(info *nfpm.Info) (result []byte)
+//@ func conffiles(info *nfpm.Info) (result []byte)
 //@   requires [C08] info != nil && files.SpecContentsNonNil(info.Contents)
+//@   ensures [C06 C07] no-events: ghostFlag("failed") == old(ghostFlag("failed")) && ghostFlag("clockRead") == old(ghostFlag("clockRead")) && ghostFlag("envRead") == old(ghostFlag("envRead"))
+//@   modifies [C11 C12]
 //@   ensures [C08] config-files-and-only-those-in-plan-order: string(result) == orNewline(confText(info.Contents, len(info.Contents)))
 //@   loop 0 (iter int, confs []string)
 //@     invariant [C11 C12] accumulator-fresh: confs == nil || fresh(confs)
@@ -217,7 +219,7 @@ package deb
 //@ }
 //
 //@ inline func createControl(instSize int64, md5sums []byte, info *nfpm.Info) (controlTarGz []byte, err error)
-//@   requires info != nil
+//@   requires info != nil && files.SpecContentsNonNil(info.Contents)
 //@   requires !ghostFlag("failed")
 //@   ensures [C09 C08 C03 C02] control-archive-members: implies(err == nil, globStr("tarManifestAtClose") ==
 //@       ctlItem("./control", 0o644, old(debControlHead(info, instSize/1024)) + renderedRange(".Info.Deb.Fields") + "\n", lastTime("github.com/goreleaser/nfpm/v2/internal/modtime.Get")) +
